@@ -6,7 +6,7 @@
    configurations stay inside a family with pairwise intersecting quorums (RaftCCSafety.v). *)
 Require Import List Arith Bool Lia.
 Require Import Raft.Quorum Raft.RaftModel Raft.RaftSys Raft.RaftLog Raft.RaftInv Raft.RaftInvBase
-               Raft.RaftInvMain Raft.RaftRefine Raft.RaftStepProps Raft.RaftCC.
+               Raft.RaftInvMain Raft.RaftRefine Raft.RaftStepProps Raft.RaftCC Raft.RaftCCInv.
 Import ListNotations.
 
 Section CCRefine.
@@ -101,7 +101,7 @@ Section CCRefine.
     set (n1 := set_match (reset_match c c' (n_match n)) n).
     assert (R1 : reaches F s id n1 [] (set_node s id n1)).
     { eapply reaches_step; [apply (M_lower F s id (reset_match c c' (n_match n)))|reflexivity|cbn; rewrite app_nil_r; reflexivity].
-      intros x. fold n. unfold reset_match. destruct (member c' x && member c x); lia. }
+      intros x. fold n. unfold reset_match. destruct (tracked c' x && tracked c x); lia. }
     destruct (role_eqb (n_role n1) Leader && member c' id && match c_in c' with [] => false | _ :: _ => true end) eqn:Ec;
       [|eexists; exact R1].
     apply andb_true_iff in Ec as [Ec _]. apply andb_true_iff in Ec as [Er _].
@@ -187,9 +187,9 @@ Section CCRefine.
       cbv beta iota zeta. cbn [fst snd]. set (n2 := set_log (n_log n1 ++ [(n_term n1, 120)]) n1).
       assert (Hr1 : n_role n1 = Leader).
       { unfold auto in Eauto. apply andb_true_iff in Eauto as [_ E]. destruct (n_role n1); try discriminate; reflexivity. }
-      set (n3 := if role_eqb (n_role n2) Leader && member c1 id then leader_ack (c_in c1) (c_out c1) id (length (n_log n)) n2 else n2).
+      set (n3 := if role_eqb (n_role n2) Leader && tracked c1 id then leader_ack (c_in c1) (c_out c1) id (length (n_log n)) n2 else n2).
       assert (Hl3 : n_log n3 = n_log n ++ [(n_term n1, 120)]).
-      { unfold n3. destruct (role_eqb (n_role n2) Leader && member c1 id).
+      { unfold n3. destruct (role_eqb (n_role n2) Leader && tracked c1 id).
         - destruct (leader_ack_props (c_in c1) (c_out c1) id (length (n_log n)) n2) as (_ & _ & L & _). cbn zeta in L. rewrite L. cbn. rewrite Al. reflexivity.
         - cbn. rewrite Al. reflexivity. }
       split; [|exists [(n_term n1, 120)]; exact Hl3].
@@ -206,19 +206,19 @@ Section CCRefine.
       assert (Hlinv : loop_inv (n3, c1, S (length (n_log n1)), rdc)).
       { unfold loop_inv. rewrite Hl3. split.
         - rewrite Ec1. f_equal. symmetry. apply firstn_app_le. lia.
-        - unfold n3. destruct (role_eqb (n_role n2) Leader && member c1 id).
+        - unfold n3. destruct (role_eqb (n_role n2) Leader && tracked c1 id).
           + destruct (leader_ack_props (c_in c1) (c_out c1) id (length (n_log n)) n2) as (_ & _ & _ & _ & C & _). cbn zeta in C. cbn in C. lia.
           + cbn. lia. }
-      unfold n3 in *. destruct (role_eqb (n_role n2) Leader && member c1 id) eqn:Eack; [|exists s2; split; [exact R12|exact Hlinv]].
+      unfold n3 in *. destruct (role_eqb (n_role n2) Leader && tracked c1 id) eqn:Eack; [|exists s2; split; [exact R12|exact Hlinv]].
       destruct (reaches_leader_ack s2 id n2 c1 id (length (n_log n)) Hn2 Hr1 Hok1 eq_refl) as [s3 R3].
       { cbn. rewrite Al, app_length. lia. }
       exists s3. split; [|exact Hlinv].
       pose proof (reaches_trans F s id _ [] s2 _ [] _ R12 R3) as R. exact R.
     - (* no leave entry *)
       cbv beta iota zeta. cbn [fst snd].
-      set (n3 := if role_eqb (n_role n1) Leader && member c1 id then leader_ack (c_in c1) (c_out c1) id (length (n_log n)) n1 else n1).
+      set (n3 := if role_eqb (n_role n1) Leader && tracked c1 id then leader_ack (c_in c1) (c_out c1) id (length (n_log n)) n1 else n1).
       assert (Hl3 : n_log n3 = n_log n).
-      { unfold n3. destruct (role_eqb (n_role n1) Leader && member c1 id); [|exact Al].
+      { unfold n3. destruct (role_eqb (n_role n1) Leader && tracked c1 id); [|exact Al].
         destruct (leader_ack_props (c_in c1) (c_out c1) id (length (n_log n)) n1) as (_ & _ & L & _). cbn zeta in L. rewrite L. exact Al. }
       split; [|exists []; rewrite app_nil_r; exact Hl3].
       intros _.
@@ -229,9 +229,9 @@ Section CCRefine.
       assert (Hok1 : used_ok c1) by (rewrite Ec1; apply Henv).
       assert (Hlinv : loop_inv (n3, c1, pend, rdc)).
       { unfold loop_inv. rewrite Hl3. split; [exact Ec1|].
-        unfold n3. destruct (role_eqb (n_role n1) Leader && member c1 id); [|lia].
+        unfold n3. destruct (role_eqb (n_role n1) Leader && tracked c1 id); [|lia].
         destruct (leader_ack_props (c_in c1) (c_out c1) id (length (n_log n)) n1) as (_ & _ & _ & _ & C & _). cbn zeta in C. lia. }
-      unfold n3 in *. destruct (role_eqb (n_role n1) Leader && member c1 id) eqn:Eack; [|exists s1; split; [exact R1|exact Hlinv]].
+      unfold n3 in *. destruct (role_eqb (n_role n1) Leader && tracked c1 id) eqn:Eack; [|exists s1; split; [exact R1|exact Hlinv]].
       apply andb_true_iff in Eack as [Er _].
       assert (Hr1 : n_role n1 = Leader) by (destruct (n_role n1); try discriminate; reflexivity).
       destruct (reaches_leader_ack s1 id n1 c1 id (length (n_log n)) Hn1 Hr1 Hok1 eq_refl) as [s3 R3].
@@ -253,12 +253,12 @@ Section CCRefine.
     destruct ((applied <? rdc) && c_auto c1 && (applied <=? pend) && (pend <=? rdc) && role_eqb (n_role n1) Leader);
       cbv beta iota zeta; cbn [fst snd].
     - exists [(n_term n1, 120)].
-      destruct (role_eqb _ Leader && member c1 id).
+      destruct (role_eqb _ Leader && tracked c1 id).
       + destruct (leader_ack_props (c_in c1) (c_out c1) id (length (n_log n)) (set_log (n_log n1 ++ [(n_term n1, 120)]) n1)) as (_ & _ & L & _).
         cbn zeta in L. rewrite L. cbn. rewrite Al. reflexivity.
       + cbn. rewrite Al. reflexivity.
     - exists []. rewrite app_nil_r.
-      destruct (role_eqb _ Leader && member c1 id); [|exact Al].
+      destruct (role_eqb _ Leader && tracked c1 id); [|exact Al].
       destruct (leader_ack_props (c_in c1) (c_out c1) id (length (n_log n)) n1) as (_ & _ & L & _). cbn zeta in L. rewrite L. exact Al.
   Qed.
 
@@ -356,7 +356,7 @@ Section CCRefine.
     unfold exec_cc in *. fold n in Henv'. fold n.
     set (c := node_cfg boot n) in *.
     assert (Hokc : used_ok c) by (unfold c, node_cfg; apply Henv0).
-    destruct (match ev with EvRecv m => is_response (m_type m) && negb (member c (m_from m)) | _ => false end) eqn:Ed.
+    destruct (match ev with EvRecv m => is_response (m_type m) && negb (tracked c (m_from m)) | _ => false end) eqn:Ed.
     { cbn [fst snd]. exists s. apply reaches_refl. }
     (* the call itself *)
     assert (Hcall : exists s1, reaches F s id (fst (fst (handle_cc id c ev n pend))) (snd (fst (handle_cc id c ev n pend))) s1 /\
@@ -376,8 +376,34 @@ Section CCRefine.
       assert (Hnop : exists s1, reaches F s id n [] s1 /\ firstn (n_commit n) (n_log n) = firstn (n_commit n) (n_log n) /\ n_commit n <= n_commit n).
       { exists s. split; [apply reaches_refl|split; [reflexivity|lia]]. }
       unfold handle_cc. destruct ev as [|p|m| |]; try exact Hgen.
+      2:{ (* a message: possibly the acknowledgement of a learner *)
+          cbn [fst snd]. unfold learner_ack.
+          destruct (msg_is_appresp m && negb (m_reject m) && negb (member c (m_from m))
+                    && role_eqb (n_role (fst (handle (c_in c) (c_out c) id (EvRecv m) n))) Leader
+                    && (m_term m =? n_term (fst (handle (c_in c) (c_out c) id (EvRecv m) n)))) eqn:Ecase; [|exact Hgen].
+          apply andb_true_iff in Ecase as [Ecase Et]. apply andb_true_iff in Ecase as [Ecase Erl].
+          apply andb_true_iff in Ecase as [Ecase _]. apply andb_true_iff in Ecase as [Ety Erej].
+          apply Nat.eqb_eq in Et. apply negb_true_iff in Erej.
+          destruct Hgen as (s1 & R1 & Hk1 & Hc1).
+          set (n1 := fst (handle (c_in c) (c_out c) id (EvRecv m) n)) in *.
+          assert (Hrl : n_role n1 = Leader) by (destruct (n_role n1); try discriminate; reflexivity).
+          assert (Hty : m_type m = MsgAppResp) by (unfold msg_is_appresp in Ety; destruct (m_type m); try discriminate; reflexivity).
+          destruct (Hev m eq_refl) as [Hin Hto].
+          pose proof (proj1 (proj2 R1)) as Hn1.
+          assert (Hin1 : In m (msgs s1)) by (rewrite (proj2 (proj2 (proj2 R1))); apply in_or_app; left; exact Hin).
+          destruct (leader_ack_props (c_in c) (c_out c) (m_from m) (m_index m) n1) as (_ & _ & Al & _ & Ac & _). cbn zeta in Al, Ac.
+          assert (R2 : exists s2, reaches F s1 id (leader_ack (c_in c) (c_out c) (m_from m) (m_index m) n1) [] s2).
+          { unfold leader_ack. destruct (n_match n1 (m_from m) <? m_index m); [|exists s1; rewrite <- Hn1; apply reaches_refl].
+            assert (R3 : reaches F s1 id (set_match (upd (n_match n1) (m_from m) (m_index m)) n1) []
+                           (set_node s1 id (set_match (upd (n_match (nodes s1 id)) (m_from m) (m_index m)) (nodes s1 id)))).
+            { eapply reaches_step; [apply (M_ack F s1 id m Hin1 Hty Erej Hto); rewrite Hn1; [exact Et|exact Hrl]|rewrite Hn1; reflexivity|cbn; rewrite app_nil_r; reflexivity]. }
+            pose proof (reaches_commit _ id _ c (proj1 (proj2 R3)) Hrl Hokc) as R4.
+            eexists. exact (reaches_trans F s1 id _ [] _ _ [] _ R3 R4). }
+          destruct R2 as [s2 R2]. exists s2. split.
+          - pose proof (reaches_trans F s id n1 _ s1 _ [] s2 R1 R2) as R. rewrite app_nil_r in R. exact R.
+          - rewrite Al. split; [exact Hk1|lia]. }
       destruct (n_role n) eqn:Er; cbn [fst snd]; try exact Hnop.
-      destruct (negb (member c id)); cbn [fst snd]; [exact Hnop|].
+      destruct (negb (tracked c id)); cbn [fst snd]; [exact Hnop|].
       destruct (cc_of_payload p) as [op|]; cbn [fst snd]; [|apply Hprop; reflexivity].
       destruct ((n_commit n <? pend) || joint c && negb match op with CcLeave => true | _ => false end
                 || negb (joint c) && match op with CcLeave => true | _ => false end); cbn [fst snd]; apply Hprop; reflexivity. }
@@ -434,11 +460,11 @@ Section CCHardState.
     destruct (fold_apply_hs ents n c) as (A & B & C). cbn zeta in *. rewrite Ef in A, B, C. cbn [fst] in *.
     destruct ((applied <? rdc) && c_auto c1 && (applied <=? pend) && (pend <=? rdc) && role_eqb (n_role n1) Leader);
       cbv beta iota zeta; cbn [fst snd].
-    - destruct (role_eqb _ Leader && member c1 id).
+    - destruct (role_eqb _ Leader && tracked c1 id).
       + destruct (leader_ack_props (c_in c1) (c_out c1) id (length (n_log n)) (set_log (n_log n1 ++ [(n_term n1, 120)]) n1)) as (T & V & _ & _ & Cm & _).
         cbn zeta in *. cbn [set_log n_term n_vote n_commit] in *. repeat split; try congruence; try lia.
       + cbn. repeat split; try congruence; try lia.
-    - destruct (role_eqb _ Leader && member c1 id); [|repeat split; try congruence; lia].
+    - destruct (role_eqb _ Leader && tracked c1 id); [|repeat split; try congruence; lia].
       destruct (leader_ack_props (c_in c1) (c_out c1) id (length (n_log n)) n1) as (T & V & _ & _ & Cm & _).
       cbn zeta in *. repeat split; try congruence; try lia.
   Qed.
@@ -457,16 +483,19 @@ Section CCHardState.
     hs_mono n (fst (fst (exec_cc boot page1 id ev (n, pend)))).
   Proof.
     intros ev n pend. unfold exec_cc. set (c := node_cfg boot n).
-    destruct (match ev with EvRecv m => is_response (m_type m) && negb (member c (m_from m)) | _ => false end);
+    destruct (match ev with EvRecv m => is_response (m_type m) && negb (tracked c (m_from m)) | _ => false end);
       [cbn [fst]; apply hs_mono_refl|].
     assert (Hh : hs_mono n (fst (fst (handle_cc id c ev n pend)))).
     { assert (Hg : forall ev', hs_mono n (fst (handle (c_in c) (c_out c) id ev' n)))
         by (intros ev'; destruct (handle_good (c_in c) (c_out c) id ev' n) as (H & _); exact H).
       unfold handle_cc. destruct ev as [|p|m| |]; try (cbn [fst]; apply Hg).
+      2:{ cbn [fst]. eapply hs_mono_trans; [apply (Hg (EvRecv m))|].
+          destruct (learner_ack_props c (EvRecv m) (fst (handle (c_in c) (c_out c) id (EvRecv m) n))) as (A & B & _ & _ & E).
+          cbn zeta in A, B, E. split; [lia|split; [intros _; left; exact B|exact E]]. }
       destruct (n_role n) eqn:Er; cbn [fst]; try apply hs_mono_refl.
       assert (Hp : forall q, hs_mono n (propose q n)).
       { intros q. destruct (propose_good q n) as (H & _). exact H. }
-      destruct (negb (member c id)); cbn [fst]; [apply hs_mono_refl|].
+      destruct (negb (tracked c id)); cbn [fst]; [apply hs_mono_refl|].
       destruct (cc_of_payload p) as [op|]; cbn [fst]; [|apply Hp].
       destruct ((n_commit n <? pend) || joint c && negb match op with CcLeave => true | _ => false end
                 || negb (joint c) && match op with CcLeave => true | _ => false end); cbn [fst]; apply Hp. }
